@@ -32,7 +32,7 @@ CLAIMS = {
         text="Proof of absence of run-time panics (index, slice bounds, nil, division, type assertion, unsafe reads inside the allocation) and of the extent clause "
              "(success implies consumed <= len(input)) for all byte strings and all 256 type bytes, for the thrift.Binary readers, ReadMessageBegin and Skip.",
         note="Covered: thrift.Binary readers, ReadMessageBegin, Skip, the stream reader and skippers, skip decoders, ApplicationException.FastRead, FastUnmarshal, UnmarshalFastMsg. "
-             "Not yet: Base/BaseResp FastRead, unknown-field conversion, TTHeader decode. " + TRUST,
+             "Also covered since: Base/BaseResp FastRead, unknown-field conversion, TTHeader decode, StrMap.Get. " + TRUST,
         design="5 C03"),
     "C04": dict(
         text="Proof that DefaultReader (io.Reader-backed) and BytesReader refine the bufiox.Reader interface contract, whose ghost state is the unread stream $u: Next/Peek return exactly the next n bytes of "
@@ -80,11 +80,17 @@ CLAIMS = {
              "encoding, rejects every first word without the version marker as BAD_VERSION and every truncation with an error, and reports the exact consumed length.",
         note="The decoded type id / text of the surfaced application exception are not yet tied to the payload bytes (ApplicationException.FastRead is proved for extent and safety only). " + TRUST,
         design="5 C12"),
+    "C13": dict(
+        text="Proof for the decoding half (bytes -> tree), for every byte string: ConvertUnknownFields / readUnknownField never panic, terminate (measure: remaining bytes), report a consumed length within the input, and build nodes that carry the id and type they were decoded for, "
+             "with KeyType/ValType set only where meaningful (D5 fixed: a nested struct member no longer inherits the tags of the member before it); list/set elements have the declared element type and ids 0..n-1, the flattened map slice holds key-typed nodes at even and value-typed nodes at odd positions, struct members obey the tag discipline.",
+        note="NOT proved: the encoding half (UnknownFieldsLength, WriteUnknownFields and the round trip). They need a recursive well-typedness predicate over trees of interface-boxed slices, which the contract language (non-recursive predicates) cannot state; so 'write-then-convert' and 'length equals byte count' are not decided. "
+             "Scalar values inside the nodes are not tied to the input bytes beyond what the reader contracts of C01 give per call. " + TRUST,
+        design="8.2 C13"),
     "C15": dict(
         text="Proof: WriteBinaryNocopy / WriteStringNocopy are byte-identical to the copying writers when no direct writer is attached or the value is below the 4096 threshold; otherwise they "
              "write exactly the 4-byte length word, return 4, and hand exactly the value with remainCap = len(buf)-4 to the direct writer (ghost log of the NocopyWriter interface contract); "
              "the no-copy length functions equal the copying ones. Both sides of the threshold are one symbolic length.",
-        note="Struct-level splicing (Base/BaseResp with several large fields) is not covered. " + TRUST,
+        note="Struct level: Base/BaseResp.FastWriteNocopy advance by exactly what each field writer returns and cause one direct write per large string field (nil or empty Extra only). " + TRUST,
         design="5 C15"),
     "C16": dict(
         text="Proof: Binary.ReadBinary / ReadString return a value whose backing memory is fresh (not allocated before the call, hence disjoint from the input and from every earlier result) "
@@ -115,7 +121,7 @@ CLAIMS = {
     "C11": dict(
         text="Proof for ApplicationException: BLength equals the bytes FastWrite/FastWriteNocopy produce, which are the documented field encodings; FastRead never panics, consumes exactly the struct extent "
              "given by the grammar (unknown or differently-typed fields of any type are skipped with their exact length) and succeeds iff the grammar accepts; FastMarshal/FastUnmarshal over the FastCodec interface contract.",
-        note="Base / BaseResp (generated code with maps) and the decoded field values of ApplicationException.FastRead are not yet under contract. " + TRUST,
+        note="Base / BaseResp: BLength, FastWrite, FastWriteNocopy are proved equal and byte-exact for a nil or empty Extra map (Go maps are abstracted to their length); FastRead is proved for safety, extent on success and frame; which struct field a decoded value lands in (dispatch on field id and type) and decoded values are not specified. " + TRUST,
         design="5 C11"),
     "C18": dict(
         text="Proof (loop-free, complete for all type ids, messages and prefixes): PrependError preserves the exception kind (transport / protocol / application; a foreign value exposing TypeId becomes an "
